@@ -13,6 +13,7 @@
 #include <limits>
 #include <set>
 #include <sstream>
+#include <type_traits>
 
 using namespace vl;
 
@@ -48,8 +49,8 @@ template<class S, int n> struct Sig<PowerVector<S, n>> { static std::string s() 
 static std::string shape_sig(const vj::Value& sh)
 {
   const std::string k = sh["k"].as_str();
-  if(k == "dense") return "D";
-  if(k == "blocked") return "B" + std::to_string(sh["bs"].as_int());
+  if(k == "dense" || k == "dview") return "D";
+  if(k == "blocked" || k == "bview") return "B" + std::to_string(sh["bs"].as_int());
   const vj::Value& p = sh["parts"];
   if(k == "tuple") { std::string r = "T("; for(std::size_t i = 0; i < p.size(); ++i) { if(i) r += ","; r += shape_sig(p[i]); } return r + ")"; }
   if(k == "power") return "P" + std::to_string(p.size()) + "(" + shape_sig(p[0]) + ")";
@@ -154,17 +155,85 @@ static bool check_results(Ctx& k, const std::vector<double>& res, const std::str
   return true;
 }
 
+// The three slots of a case.  Ordinary kinds: three vectors built from the flat contents.  Ranged views (family
+// "view"): three PARENT vectors and the views DenseVector(parent, n, off) / DenseVectorBlocked(parent, n, off) into
+// them (slot 2 = a second view of parent 1 when shape.sib >= 0), plus a twin of view 1 (same parent, same window).
 template<class VT>
-static bool check_slots(Ctx& k, const VT* v, const std::string& tag)
+struct Slots
 {
-  for(int s = 0; s < 3; ++s)
+  typedef typename VT::DataType DT;
+  static constexpr bool can_view = std::is_constructible<VT, const VT&, Index, Index>::value;
+  VT own[3], par[3], view[3], twin;
+  bool isview = false; long long n = 0, off = 0, pn = 0, sib = -1, bs = 1;
+
+  VT& at(int s) { return isview ? view[s] : own[s]; }
+  // operand named by slot id (0 = unused -> receiver); twin: a second object over the memory of slot 1
+  const VT& opnd(int id, bool tw) { if(id <= 0) return at(0); if(isview && tw && id == 1) return twin; return at(id - 1); }
+
+  bool build(Ctx& k, const std::string& tag)
   {
-    std::vector<double> g; vread(v[s], g);
-    if(!same_scaled(g, s == 0 ? k.wden : 1, k.post[s]))
-      return k.fail(tag + ": " + k.op + " slot " + std::to_string(s + 1) + (s == 0 ? " (receiver)" : " (operand)") + " is " + ds(g) + " expected " + vs(k.post[s]) + "/" + std::to_string(s == 0 ? k.wden : 1));
+    const vj::Value& sh = k.c["shape"];
+    const std::string kind = sh["k"].as_str();
+    isview = (kind == "dview" || kind == "bview");
+    if(!isview)
+    {
+      for(int s = 0; s < 3; ++s)
+      {
+        std::size_t pos = 0; vfill(own[s], sh, k.pre[s], pos);
+        std::vector<double> g; vread(own[s], g);
+        if(pos != k.pre[s].size() || !same_scaled(g, 1, k.pre[s])) return k.fail(tag + ": construction does not reproduce the flat contents");
+      }
+    }
+    else
+    {
+      if constexpr (can_view)
+      {
+        n = sh["n"].as_int(); off = sh["off"].as_int(); pn = sh["pn"].as_int(); sib = sh["sib"].as_int(); bs = sh["bs"].as_int();
+        vj::Value psh = vj::Value::object(); psh["k"] = (kind == "dview" ? "dense" : "blocked"); psh["bs"] = bs; psh["n"] = pn;
+        for(int s = 0; s < 3; ++s) { std::size_t pos = 0; vfill(par[s], psh, k.c["ppre"][s].ints(), pos); }
+        for(int s = 0; s < 3; ++s)
+        {
+          if(s == 1 && sib >= 0) view[s] = VT(par[0], Index(n), Index(sib));
+          else view[s] = VT(par[s], Index(n), Index(off));
+        }
+        twin = VT(par[0], Index(n), Index(off));
+        for(int s = 0; s < 3; ++s)
+        {
+          std::vector<double> g; vread(view[s], g);
+          if(!same_scaled(g, 1, k.pre[s])) return k.fail(tag + ": the view does not show the window of its parent: " + ds(g) + " expected " + vs(k.pre[s]));
+        }
+      }
+      else return k.fail(tag + ": no ranged views for this vector type");
+    }
+    for(int s = 0; s < 3; ++s)
+      if(at(s).template size<Perspective::pod>() != Index(k.pre[s].size())) return k.fail(tag + ": size<pod>() = " + std::to_string(at(s).template size<Perspective::pod>()));
+    return true;
   }
-  return true;
-}
+
+  // slots (and parents) against the specification's post-state
+  bool check(Ctx& k, const std::string& tag)
+  {
+    for(int s = 0; s < 3; ++s)
+    {
+      std::vector<double> g; vread(at(s), g);
+      if(!same_scaled(g, s == 0 ? k.wden : 1, k.post[s]))
+        return k.fail(tag + ": " + k.op + " slot " + std::to_string(s + 1) + (s == 0 ? " (receiver)" : " (operand)") + " is " + ds(g) + " expected " + vs(k.post[s]) + "/" + std::to_string(s == 0 ? k.wden : 1));
+    }
+    if(isview)
+    {
+      for(int s = 0; s < 3; ++s)
+      {
+        if(s == 1 && sib >= 0) continue;
+        std::vector<double> g; vread(par[s], g); IVec e = k.c["ppost"][s].ints();
+        if(!same_scaled(g, s == 0 ? k.wden : 1, e))
+          return k.fail(tag + ": " + k.op + " parent of slot " + std::to_string(s + 1) + " is " + ds(g) + " expected " + vs(e) + "/" + std::to_string(s == 0 ? k.wden : 1));
+      }
+      std::vector<double> g; vread(twin, g);
+      if(!same_scaled(g, k.wden, k.post[0])) return k.fail(tag + ": " + k.op + " a second view of the same window shows " + ds(g) + " expected " + vs(k.post[0]));
+    }
+    return true;
+  }
+};
 
 // ---------------------------------------------------------------------------------------------------------------
 // operations common to all vector kinds
@@ -173,17 +242,12 @@ template<class VT>
 bool run_generic(Ctx& k, const std::string& tag0)
 {
   typedef typename VT::DataType DT; typedef typename VT::IndexType IT;
-  const std::string tag = tag0 + "/" + Sig<VT>::s();
-  VT v[3];
-  for(int s = 0; s < 3; ++s)
-  {
-    std::size_t pos = 0; vfill(v[s], k.c["shape"], k.pre[s], pos);
-    std::vector<double> g; vread(v[s], g);
-    if(pos != k.pre[s].size() || !same_scaled(g, 1, k.pre[s])) return k.fail(tag + ": construction does not reproduce the flat contents");
-    if(v[s].template size<Perspective::pod>() != Index(k.pre[s].size())) return k.fail(tag + ": size<pod>() = " + std::to_string(v[s].template size<Perspective::pod>()));
-  }
+  const std::string tag = tag0 + "/" + Sig<VT>::s() + (k.c["fam"].as_str() == "view" ? "view" : "");
+  Slots<VT> S;
+  if(!S.build(k, tag)) return false;
+  const bool tw = k.c["twin"].as_bool();
   const DT alpha = DT(double(k.an) / double(k.ad));
-  VT& r = v[0]; const VT& x = v[k.xi > 0 ? k.xi - 1 : 0]; const VT& y = v[k.yi > 0 ? k.yi - 1 : 0];
+  VT& r = S.at(0); const VT& x = S.opnd(k.xi, tw); const VT& y = S.opnd(k.yi, tw);
   std::vector<double> res; bool generic = true;
   const std::string& op = k.op;
   if(op == "axpy") r.axpy(x, alpha);
@@ -210,10 +274,39 @@ bool run_generic(Ctx& k, const std::string& tag0)
       if(!same_scaled(g, 1, k.auxpost)) return k.fail(tag + ": " + op + " dense vector is " + ds(g) + " expected " + vs(k.auxpost));
     }
   }
+  else if(op == "p_format" || op == "p_scale" || op == "p_axpy" || op == "p_copy" || op == "clone_deep")
+  {
+    if constexpr (Slots<VT>::can_view)
+    {
+      if(!S.isview) return k.fail(tag + ": " + op + " outside the view family");
+      VT& p = S.par[0]; const VT& px = S.par[k.xi > 0 ? k.xi - 1 : 0];
+      if(op == "p_format") p.format(alpha);
+      else if(op == "p_scale") p.scale(px, alpha);
+      else if(op == "p_axpy") p.axpy(px, alpha);
+      else if(op == "p_copy") p.copy(px);
+      else
+      {
+        // deep clone of the view: an independent vector with the contents of the view
+        VT c = r.clone(CloneMode::Deep);
+        std::vector<double> g; vread(c, g);
+        if(c.size() != r.size() || !same_scaled(g, 1, k.auxpost)) return k.fail(tag + ": clone(Deep) of the view is " + ds(g) + " expected " + vs(k.auxpost));
+        c.format(DT(77));
+        if(!S.check(k, tag + " [after formatting the clone]")) return false;
+        std::vector<double> g2; vread(c, g2);
+        for(double t : g2) if(t != 77.0) return k.fail(tag + ": format of the clone gives " + ds(g2));
+        VT c2 = r.clone(CloneMode::Deep);
+        r.format(DT(-3));
+        std::vector<double> g3; vread(c2, g3);
+        if(!same_scaled(g3, 1, k.auxpost)) return k.fail(tag + ": the deep clone changed when the view was formatted: " + ds(g3));
+        return true;
+      }
+    }
+    else generic = false;
+  }
   else generic = false;
   if(!generic) return k.fail(tag + ": unknown operation " + op);
   if(!check_results<DT>(k, res, tag)) return false;
-  return check_slots(k, v, tag);
+  return S.check(k, tag);
 }
 
 // ---------------------------------------------------------------------------------------------------------------
@@ -223,11 +316,12 @@ template<class DT, class IT, int BS>
 bool run_blocked_ops(Ctx& k, const std::string& tag0)
 {
   typedef DenseVectorBlocked<DT, IT, BS> VT; typedef typename VT::ValueType BV;
-  const std::string tag = tag0 + "/B" + std::to_string(BS);
-  VT v[3];
-  for(int s = 0; s < 3; ++s) { std::size_t pos = 0; vfill(v[s], k.c["shape"], k.pre[s], pos); }
+  const std::string tag = tag0 + "/B" + std::to_string(BS) + (k.c["fam"].as_str() == "view" ? "view" : "");
+  Slots<VT> S;
+  if(!S.build(k, tag)) return false;
+  const bool tw = k.c["twin"].as_bool();
   BV alpha; for(int j = 0; j < BS; ++j) alpha[j] = DT(double(k.av.at(j)) / double(k.ad));
-  VT& r = v[0]; const VT& x = v[k.xi > 0 ? k.xi - 1 : 0]; const VT& y = v[k.yi > 0 ? k.yi - 1 : 0];
+  VT& r = S.at(0); const VT& x = S.opnd(k.xi, tw); const VT& y = S.opnd(k.yi, tw);
   std::vector<double> res; const std::string& op = k.op;
   auto put = [&res](const BV& t) { for(int j = 0; j < BS; ++j) res.push_back(double(t[j])); };
   if(op == "axpy_blocked") r.axpy_blocked(x, alpha);
@@ -249,7 +343,7 @@ bool run_blocked_ops(Ctx& k, const std::string& tag0)
   }
   else return k.fail(tag + ": unknown operation " + op);
   if(!check_results<DT>(k, res, tag)) return false;
-  return check_slots(k, v, tag);
+  return S.check(k, tag);
 }
 
 // ---------------------------------------------------------------------------------------------------------------
@@ -385,7 +479,7 @@ bool run_typed(Ctx& k, const std::string& tag)
   }
 #define TRY(T) if(sig == Sig<T>::s()) return run_generic<T>(k, tag);
   TRY(Dv) TRY(B1) TRY(B2) TRY(B3) TRY(B4)
-  if(fam == "dense" || fam == "blocked") return k.fail("unsupported vector type " + sig);
+  if(fam == "dense" || fam == "blocked" || fam == "view") return k.fail("unsupported vector type " + sig);
   if constexpr (!composed_too) return true;
   else {
   typedef TupleVector<Dv> T1; typedef TupleVector<Dv, Dv> T2; typedef TupleVector<Dv, B2> T3; typedef TupleVector<B3, Dv, Dv> T4;
